@@ -181,7 +181,11 @@ fn apply(o: Obj, c: &Value, k: usize, salt: usize) -> Result<Obj, String> {
                 }
                 if w.len() != v.len() { return Err(format!("writer reports len {} after {} bits", w.len(), v.len())); }
                 if w.filename() != path.as_path() || !w.is_open() || w.is_empty() != v.is_empty() { return Err(format!("writer accessors: filename {:?}, is_open {}, is_empty {}", w.filename(), w.is_open(), w.is_empty())); }
-                if salt % 3 == 0 { drop(w); } else { w.close().map_err(|e| e.to_string())?; }
+                // the file may be renamed while the writer is open: the writer owns a handle, not a name
+                let moved = scratch();
+                let renamed = salt % 4 == 2 && std::fs::rename(&path, &moved).is_ok();
+                if salt % 3 == 0 { drop(w); } else { w.close().map_err(|e| format!("close failed{}: {}", if renamed { " (the file was renamed while the writer was open)" } else { "" }, e))?; }
+                if renamed { std::fs::rename(&moved, &path).map_err(|e| e.to_string())?; }
                 serialize::load_from::<RawVector, _>(&path).map_err(|e| format!("load_from writer file failed: {}", e))
             })();
             let _ = std::fs::remove_file(&path);
